@@ -286,6 +286,34 @@ pub fn check_search(l: &mut Local, which: Which, zm: &crate::model::zone::ZoneMo
                 (None, false) => {}
                 (u, w) => l.violation("mktime: unique() present exactly when there is a single valid result and nothing else", input(), format!("unique present = {}", w), format!("{:?} for {}", u.map(|d| facade::fmt_dt(&d)), fmt_kinds(&got))),
             }
+            // the same answer through the buffer-based search, on a buffer that still holds the entries of earlier
+            // searches (re-using one buffer is the documented use): unique() must not see stale entries
+            {
+                let mut buf: Vec<Option<FoundDateTimeKind>> = (0..got.len() + 2).map(|i| stale.get(i).copied().flatten()).collect();
+                if buf.iter().skip(got.len()).any(|e| e.is_some()) {
+                    l.class("unique_through_a_reused_buffer");
+                }
+                calls += 1;
+                if let Ok(res) = facade::find_n(&mut buf, q.y, q.mo, q.d, q.h, q.mi, q.s, q.ns, tz) {
+                    let u2 = res.unique();
+                    let same = match (&u2, &uniq) {
+                        (None, None) => true,
+                        (Some(a), Some(b)) => same_dt(a, b),
+                        _ => false,
+                    };
+                    if !same {
+                        l.violation("mktime: unique() of the buffer-based search (re-used buffer) differs from the allocating search", input(), format!("{:?}", uniq.map(|d| facade::fmt_dt(&d))), format!("{:?}", u2.map(|d| facade::fmt_dt(&d))));
+                    }
+                }
+                // remember this search's entries for the next one
+                for (i, k) in got.iter().enumerate() {
+                    if i < stale.len() {
+                        stale[i] = Some(*k);
+                    } else {
+                        stale.push(Some(*k));
+                    }
+                }
+            }
             // localtime followed by the search recovers the instant: done by the caller with round_trip()
         }
         Which::C06 => {
@@ -599,6 +627,7 @@ pub fn run_which(ctx: &Ctx, which: Which) -> Report {
             "leap_table",
             "round_trip_localtime_then_search",
             "coincident_rule_transitions_near_search",
+            "unique_through_a_reused_buffer",
         ],
         Which::C06 => vec![
             "gap_results_1",
